@@ -72,6 +72,8 @@ def run(ctx):
         r4(chk, lp, expanded)
     r3(chk, loops)
     r5(chk, fx)
+    r6_attribute_order(chk, fx)
+    r1_qualified_name_vs_literal(chk, fx, loops)
 
 
 def r1(chk, lp):
@@ -186,3 +188,113 @@ def reader_config(chk, fx):
                          name, c.loc(), holds=True)
     chk.floor("C13/R5 NsReader construction sites", n, 2)
     return bool(expanded) and all(expanded)
+
+
+# ---------------------------------------------------------------------------------------------
+def r6_attribute_order(chk, fx):
+    """Attribute order carries no information.  A reader that scans `start.attributes()` in a loop folds over them in document
+    order; the result is order-independent iff the arms commute: an arm may return (absorbing), or assign variables no other arm
+    assigns.  Two arms for different attributes that assign the same variable make the later attribute win.  Decided per scanning
+    reader on the explored one-attribute paths: which comparisons with attribute names the path assumed true, and what it assigned."""
+    import re
+    from vlib import absint as A
+    from . import c16
+    readers = []
+    for name, b in sorted(fx.mir.items()):
+        if b.crate in R.CRATES and "::tests::" not in name and "{closure" not in name and b.calls_to("BytesStart::<'a>::attributes", user_only=True):
+            if any(c.is_fn("IntoIterator::into_iter", "Iterator::next") for c in b.calls()):
+                readers.append(name)
+    chk.floor("C13/R6 readers scanning attributes in a loop", len(readers), 1)
+    for name in readers:
+        if name not in fx.thir:
+            continue
+        chk.analysed(name)
+        crate = fx.mir[name].crate
+        paths = A.Interp(fx, crates=(crate,), max_paths=6000).explore(name)
+        arms = {}
+        for p in paths:
+            if not c16.is_attr_iteration(p) or p.end == "abort":
+                continue
+            names = sorted({m for k, v in p.assume.items() if v is True for m in re.findall(r"(?:b\"|')([a-z][a-z0-9:-]*)(?:\"|')", k)
+                            if ".key" in k or "local_name" in k or "QName" in k})
+            for e in p.assigns():
+                arms.setdefault(e[1], {}).setdefault(tuple(names), set()).add(A.vstr(e[2])[:80])
+        n = 0
+        for var, by_arm in sorted(arms.items()):
+            n += 1
+            keyed = {k: v for k, v in by_arm.items() if k}
+            ok = len(keyed) <= 1
+            chk.instance("C13/R6", "%s: `%s` is assigned by the arm of one attribute only (%s)" % (R.short_fn(name), var, sorted(by_arm)), name,
+                         None, holds=ok, key="C13/R6 %s %s assigned-by-several-attribute-arms" % (R.short_fn(name), var),
+                         detail=None if ok else "arms for %s all write `%s`: whichever attribute comes last in the start tag decides" % (sorted(keyed), var))
+        chk.instance("C13/R6", "%s: attribute scan explored (%d variable(s) assigned by attribute arms)" % (R.short_fn(name), n), name, None, holds=True)
+
+
+# ---------------------------------------------------------------------------------------------
+NAME_WRAPPERS = ("AsRef::as_ref", "Deref::deref", "Borrow::borrow", "QName::as_ref", "QName::into_inner", "LocalName::as_ref", "LocalName::into_inner",
+                 "Into::into", "From::from")
+
+
+def _name_source(e, lets, depth=6):
+    """'qualified' / 'local' when the expression is (a view of) tag.name() / tag.local_name(), through wrappers and let-bound locals."""
+    for _ in range(depth):
+        e = T.peel(e)
+        k = e.get("k")
+        if k == "Call" and e.get("fn"):
+            s2 = T.short(e["fn"], 2)
+            if s2 in ("BytesStart::name", "BytesEnd::name"):
+                return "qualified"
+            if s2 in ("BytesStart::local_name", "BytesEnd::local_name", "QName::local_name"):
+                return "local"
+            if s2 in NAME_WRAPPERS and e.get("args"):
+                e = e["args"][0]
+                continue
+            return None
+        if k == "Field" and e.get("arg") is not None:
+            e = e["arg"]
+            continue
+        if k == "Var" and e.get("name") in lets:
+            e = lets[e["name"]]
+            continue
+        return None
+    return None
+
+
+def r1_qualified_name_vs_literal(chk, fx, loops):
+    """Prefix independence, second form: besides the arms of the reader loops (R1), a reader may dispatch on an element's name in a
+    nested `match` or an `==` with a literal.  The name compared with a literal must be the local name; `tag.name()` is the qualified
+    name (prefix included), which is only good for read_text / read_to_end / comparing with the remembered end tag."""
+    fns = sorted({lp.fn for lp in loops})
+    n = 0
+    for fn in fns:
+        t = fx.thir.get(fn)
+        if t is None:
+            continue
+        body = T.norm(t["body"])
+        lets = {}
+        for st in T.walk(body):
+            if st.get("k") == "LetStmt" and st.get("init") is not None and (st.get("pat") or {}).get("k") == "Bind":
+                lets.setdefault(st["pat"]["name"], st["init"])
+        sites = []
+        for m in T.find(body, "Match"):
+            scr = m.get("scrut") if "scrut" in m else m.get("scrutinee")
+            if scr is None:
+                continue
+            if any(T.pat_str(a["pat"]).startswith('b"') for a in m["arms"]):
+                sites.append((scr, m.get("sp")))
+        for c in T.find(body, "Call"):
+            if c.get("fn") and T.short(c["fn"], 2) in ("PartialEq::eq", "PartialEq::ne") and len(c.get("args") or []) == 2:
+                a0, a1 = c["args"]
+                lit = [x for x in (a0, a1) if T.peel(x).get("k") == "Lit" and isinstance(T.peel(x).get("v"), str)]
+                if len(lit) == 1:
+                    sites.append((a1 if lit[0] is a0 else a0, c.get("sp")))
+        for (e, sp) in sites:
+            src = _name_source(e, lets)
+            if src is None:
+                continue
+            n += 1
+            bad = src == "qualified"
+            chk.instance("C13/R1", "%s: a name compared with a literal is the local name (%s)" % (R.short_fn(fn), X.ntext(e)[:60]), fn, loc_of(sp), holds=not bad,
+                         key="C13/R1 %s literal-compared-with-qualified-name" % R.short_fn(fn),
+                         detail=None if not bad else "the qualified name includes the prefix: `nc:session-id` does not equal b\"session-id\"")
+    chk.floor("C13/R1 literal name comparisons outside loop arms", n, 1)
